@@ -109,7 +109,7 @@ Qed.
 Lemma do_remove_inv : forall c s i s' fr r, clean c -> inv s ->
   do_remove c s i = (s', fr, r) -> inv s' /\ r <> RmPanic.
 Proof.
-  intros c s i s' fr r (Hkb & _ & _ & Hrp) I H. unfold do_remove in H. rewrite Hkb, Hrp in H.
+  intros c s i s' fr r (Hkb & _ & _ & Hrp & _) I H. unfold do_remove in H. rewrite Hkb, Hrp in H.
   destruct (objects s i) as [[| |k]|] eqn:E.
   - inversion H; subst. split; [auto|discriminate].
   - exfalso. eapply iG; eauto.
@@ -137,6 +137,15 @@ Proof.
   - inversion H; subst. split; [auto|discriminate].
 Qed.
 
+Lemma do_remove_self_inv : forall c s k i s' fr r, clean c -> inv s ->
+  do_remove_self c s k i = (s', fr, r) -> inv s' /\ r <> RmPanic.
+Proof.
+  intros c s k i s' fr r Hc I H. pose proof Hc as (_ & _ & _ & _ & Htb).
+  unfold do_remove_self in H. rewrite Htb in H.
+  destruct (objects s i) as [[| |k']|]; try (inversion H; subst; split; [auto|discriminate]).
+  destruct (Nat.eqb k' k); [eapply do_remove_inv; eauto|inversion H; subst; split; [auto|discriminate]].
+Qed.
+
 (* what Remove does to the object that lives at i *)
 Lemma do_remove_live : forall c s i k, clean c -> inv s -> st s k = Live i ->
   exists s', do_remove c s i = (s', map (term_frame i) (a_subs (actors s k)), RmDone) /\
@@ -160,7 +169,7 @@ Qed.
 (* ---------- every step preserves the invariant ---------- *)
 Lemma step_inv : forall c s l s' o, clean c -> inv s -> step c s l = Some (s', o) -> inv s'.
 Proof.
-  intros c s l s' o Hc I H. pose proof Hc as (Hkb & Hz & Hn & Hrp).
+  intros c s l s' o Hc I H. pose proof Hc as (Hkb & Hz & Hn & Hrp & Htb).
   unfold step in H. rewrite (iJ s I) in H. destruct l as [k draws|k ok|i|cn f|k|k sg].
   - (* AddBegin *)
     unfold add_begin in H. destruct (a_status (actors s k)) eqn:Es; try discriminate.
@@ -247,8 +256,8 @@ Proof.
     + inversion H; subst. apply inv_upd_actor; auto. unfold same_core, a; simpl; auto.
     + inversion H; subst; auto.
     + destruct (wrong_id a arg); [inversion H; subst; auto|].
-      destruct (do_remove c s1 (obj_id a)) as [[s2 fr] r] eqn:E.
-      destruct (do_remove_inv _ _ _ _ _ _ Hc I1 E) as (I2 & Hr).
+      destruct (do_remove_self c s1 k (obj_id a)) as [[s2 fr] r] eqn:E.
+      destruct (do_remove_self_inv _ _ _ _ _ _ _ Hc I1 E) as (I2 & Hr).
       destruct r; inversion H; subst; auto.
     + destruct (wrong_id a arg); [inversion H; subst; auto|].
       destruct (uid_known (a_subs a) uid); [discriminate|].
@@ -372,7 +381,10 @@ Proof.
   rewrite Hw, Hoid.
   assert (HL1 : st s1 k = Live i) by (unfold st, s1, a; simpl; rewrite updA_same; exact HL).
   destruct (do_remove_live _ _ _ _ Hc I1 HL1) as (s' & E & P1 & P2 & P3 & P4 & P5 & P6 & P7 & P8 & P9).
-  rewrite E. exists s'.
+  assert (Eself : do_remove_self c s1 k i = do_remove c s1 i).
+  { unfold do_remove_self. destruct (terminate_by_index c); [reflexivity|].
+    destruct (iB s1 I1 _ _ HL1) as (Ho1 & _). rewrite Ho1, Nat.eqb_refl. reflexivity. }
+  rewrite Eself, E. exists s'.
   assert (Ha1 : actors s1 k = a) by (unfold s1; simpl; now rewrite updA_same).
   rewrite Ha1 in *. unfold a in *; simpl in *. rewrite Hq in *. simpl in *.
   repeat split; auto.
@@ -419,6 +431,20 @@ Proof.
   all: updA_cases k0 k; simpl; auto.
 Qed.
 
+Lemma do_remove_self_cases : forall c s k i, do_remove_self c s k i = do_remove c s i \/ do_remove_self c s k i = (s, [], RmMissing).
+Proof.
+  intros. unfold do_remove_self. destruct (terminate_by_index c); auto.
+  destruct (objects s i) as [[| |k']|]; auto. destruct (Nat.eqb k' k); auto.
+Qed.
+
+Lemma do_remove_self_actor : forall c s k0 i s' fr r k, do_remove_self c s k0 i = (s', fr, r) ->
+  a_execs (actors s' k) = a_execs (actors s k) /\ a_queue (actors s' k) = a_queue (actors s k).
+Proof.
+  intros c s k0 i s' fr r k H. destruct (do_remove_self_cases c s k0 i) as [E|E]; rewrite E in H.
+  - eapply do_remove_actor; eauto.
+  - inversion H; subst; auto.
+Qed.
+
 (* executions + user-method mails waiting: only a Receive that finds the actor's mailbox raises it *)
 Lemma step_potential : forall c s l s' o k, step c s l = Some (s', o) ->
   potential (actors s' k) = potential (actors s k) \/
@@ -453,8 +479,8 @@ Proof.
     + inversion H; subst. rewrite Hpop. destruct (Nat.eqb_spec k k0) as [->|]; [lia|reflexivity].
     + destruct (wrong_id _ arg).
       * inversion H; subst. rewrite Hpop. destruct (Nat.eqb_spec k k0) as [->|]; [lia|reflexivity].
-      * match type of H with context [do_remove c ?s1 ?i] => destruct (do_remove c s1 i) as [[s2 fr] r] eqn:E end.
-        destruct (do_remove_actor _ _ _ _ _ _ k E) as (He & Hq).
+      * match type of H with context [do_remove_self c ?s1 ?kk ?i] => destruct (do_remove_self c s1 kk i) as [[s2 fr] r] eqn:E end.
+        destruct (do_remove_self_actor _ _ _ _ _ _ _ k E) as (He & Hq).
         assert (potential (actors s2 k) = if Nat.eqb k k0 then a_execs (actors s k0) + hellos q else potential (actors s k)).
         { rewrite <- (Hpop (objects s) (boxes s) false). unfold potential. now rewrite He, Hq. }
         destruct r; inversion H; subst; rewrite H0; destruct (Nat.eqb_spec k k0) as [->|]; try lia; reflexivity.
@@ -469,7 +495,7 @@ Qed.
 Lemma removed_stays : forall c s l s' o k, clean c -> inv s -> step c s l = Some (s', o) ->
   st s k = Removed -> st s' k = Removed.
 Proof.
-  intros c s l s' o k Hc I H Hs. pose proof Hc as (Hkb & Hz & Hn & Hrp).
+  intros c s l s' o k Hc I H Hs. pose proof Hc as (Hkb & Hz & Hn & Hrp & Htb).
   assert (Hdr : forall s0 i s1 fr r, inv s0 -> st s0 k = Removed -> do_remove c s0 i = (s1, fr, r) -> st s1 k = Removed).
   { intros s0 i s1 fr r I0 Hs0 E. unfold do_remove in E. rewrite Hrp in E.
     destruct (objects s0 i) as [[| |k0]|] eqn:Eo; simpl in E; inversion E; subst; auto.
@@ -496,8 +522,12 @@ Proof.
     + inversion H; subst. simpl. updA_cases k0 k; simpl; auto.
     + inversion H; subst. exact Hs1.
     + destruct (wrong_id a arg); [inversion H; subst; exact Hs1|].
-      destruct (do_remove c s1 (obj_id a)) as [[s2 fr] r] eqn:E.
-      pose proof (Hdr _ _ _ _ _ I1 Hs1 E). destruct r; inversion H; subst; auto.
+      destruct (do_remove_self c s1 k0 (obj_id a)) as [[s2 fr] r] eqn:E.
+      assert (st s2 k = Removed).
+      { destruct (do_remove_self_cases c s1 k0 (obj_id a)) as [E'|E']; rewrite E' in E.
+        - eapply Hdr; eauto.
+        - inversion E; subst; auto. }
+      destruct r; inversion H; subst; auto.
     + destruct (wrong_id a arg); [inversion H; subst; exact Hs1|].
       destruct (uid_known (a_subs a) uid); [discriminate|]. inversion H; subst. simpl.
       updA_cases k0 k; simpl; auto.
@@ -563,9 +593,12 @@ Proof.
     + inversion H; subst. simpl. now rewrite updA_other.
     + inversion H; subst. simpl. now rewrite updA_other.
     + destruct (wrong_id _ arg); [inversion H; subst; simpl; now rewrite updA_other|].
-      match type of H with context [do_remove c ?s1 ?i] => destruct (do_remove c s1 i) as [[s2 fr] r] eqn:E end.
+      match type of H with context [do_remove_self c ?s1 ?kk ?i] => destruct (do_remove_self c s1 kk i) as [[s2 fr] r] eqn:E end.
       assert (actors s2 k' = actors s k').
-      { rewrite (do_remove_frame _ _ _ _ _ _ k' E); simpl; [now rewrite updA_other|]. tauto. }
+      { match type of E with do_remove_self c ?s1 ?kk ?i = _ =>
+          destruct (do_remove_self_cases c s1 kk i) as [E'|E'] end; rewrite E' in E.
+        - rewrite (do_remove_frame _ _ _ _ _ _ k' E); simpl; [now rewrite updA_other|]. tauto.
+        - inversion E; subst. simpl. now rewrite updA_other. }
       destruct r; inversion H; subst; auto.
     + destruct (wrong_id _ arg); [inversion H; subst; simpl; now rewrite updA_other|].
       destruct (uid_known _ uid); [discriminate|]. inversion H; subst. simpl. now rewrite updA_other.
@@ -579,6 +612,30 @@ Theorem deliver_live_touches_self : forall c s k i k', clean c -> reach c s -> l
 Proof.
   intros c s k i k' Hc R HL [H|H]; [auto|]. pose proof (reach_inv _ _ Hc R) as I.
   destruct (iB s I _ _ HL) as (Ho & _ & Hid). unfold obj_id in H. rewrite Hid in H. congruence.
+Qed.
+
+(* with terminate_by_index off, whatever a mailbox goroutine handles changes its own object only —
+   in every state, also for an object that was removed long ago and whose index has a new owner *)
+Theorem deliver_touches_self : forall c s k s' o k', terminate_by_index c = false ->
+  step c s (LDeliver k) = Some (s', o) -> k' <> k -> actors s' k' = actors s k'.
+Proof.
+  intros c s k s' o k' Htb H Hk. unfold step in H. destruct (crashed s); [discriminate|].
+  unfold deliver in H. destruct (a_queue (actors s k)) as [|[cn f] q]; [discriminate|].
+  destruct (f_act f) as [| |arg|arg sg uid].
+  - inversion H; subst. simpl. now rewrite updA_other.
+  - inversion H; subst. simpl. now rewrite updA_other.
+  - destruct (wrong_id _ arg); [inversion H; subst; simpl; now rewrite updA_other|].
+    match type of H with context [do_remove_self c ?s1 ?kk ?i] => destruct (do_remove_self c s1 kk i) as [[s2 fr] r] eqn:E end.
+    assert (actors s2 k' = actors s k').
+    { unfold do_remove_self in E. rewrite Htb in E. simpl in E.
+      destruct (objects s (obj_id (pop_mail (actors s k)))) as [[| |k1]|] eqn:Eo;
+        try (inversion E; subst; simpl; now rewrite updA_other).
+      destruct (Nat.eqb_spec k1 k) as [->|Hne]; [|inversion E; subst; simpl; now rewrite updA_other].
+      rewrite (do_remove_frame _ _ _ _ _ _ k' E); simpl; [now rewrite updA_other|].
+      rewrite Eo. congruence. }
+    destruct r; inversion H; subst; auto.
+  - destruct (wrong_id _ arg); [inversion H; subst; simpl; now rewrite updA_other|].
+    destruct (uid_known _ uid); [discriminate|]. inversion H; subst. simpl. now rewrite updA_other.
 Qed.
 
 (* the maps of the service change only at the index an operation names *)
@@ -613,13 +670,15 @@ Qed.
 
 (* ---------- the defects of the pinned code ---------- *)
 Definition only_keep_box : cfg := {| keep_box_on_remove := true; zero_index_untested := false;
-  nil_slot_on_failed_activate := false; remove_pending_slot := false |}.
+  nil_slot_on_failed_activate := false; remove_pending_slot := false; terminate_by_index := false |}.
 Definition only_zero_index : cfg := {| keep_box_on_remove := false; zero_index_untested := true;
-  nil_slot_on_failed_activate := false; remove_pending_slot := false |}.
+  nil_slot_on_failed_activate := false; remove_pending_slot := false; terminate_by_index := false |}.
 Definition only_nil_slot : cfg := {| keep_box_on_remove := false; zero_index_untested := false;
-  nil_slot_on_failed_activate := true; remove_pending_slot := false |}.
+  nil_slot_on_failed_activate := true; remove_pending_slot := false; terminate_by_index := false |}.
 Definition only_remove_pending : cfg := {| keep_box_on_remove := false; zero_index_untested := false;
-  nil_slot_on_failed_activate := false; remove_pending_slot := true |}.
+  nil_slot_on_failed_activate := false; remove_pending_slot := true; terminate_by_index := false |}.
+Definition only_terminate_by_index : cfg := {| keep_box_on_remove := false; zero_index_untested := false;
+  nil_slot_on_failed_activate := false; remove_pending_slot := false; terminate_by_index := true |}.
 
 Definition hello_call (i id : N) : frame := {| f_kind := KCall; f_obj := i; f_act := AHello; f_id := id |}.
 
@@ -654,6 +713,23 @@ Definition wit_remove_pending : list label :=
 
 Lemma refuted_remove_pending : exists s o, run only_remove_pending init wit_remove_pending = Some (s, o) /\
   live s 1%nat 5 /\ live s 2%nat 5 /\ o = [OIndex 5; ORet true; OIndex 5; ORet true; ORet true].
+Proof. eexists. eexists. split; [vm_compute; reflexivity|]. vm_compute. auto. Qed.
+
+(* object 1 (index 5) has its own terminate queued when Service.Remove(5) removes it; the freed index
+   is given to object 2; then object 1's mailbox handles the stale terminate: object 2 is terminated *)
+Definition wit_terminate_by_index : list label :=
+  [LAddBegin 1 [5]; LAddEnd 1 true;
+   LRecv 0 {| f_kind := KPost; f_obj := 5; f_act := ATerminate 5; f_id := 7 |};
+   LRemove 5; LAddBegin 2 [5]; LAddEnd 2 true; LDeliver 1].
+
+Lemma refuted_terminate_by_index : exists s o, run only_terminate_by_index init wit_terminate_by_index = Some (s, o) /\
+  st s 2%nat = Removed /\ a_hooks (actors s 2%nat) = 1 /\ objects s 5 = None /\
+  o = [OIndex 5; ORet true; ORet true; OIndex 5; ORet true].
+Proof. eexists. eexists. split; [vm_compute; reflexivity|]. vm_compute. auto. Qed.
+
+(* with the switch off the same run leaves object 2 alone *)
+Lemma clean_stale_terminate_harmless : exists s o, run cfg_clean init wit_terminate_by_index = Some (s, o) /\
+  live s 2%nat 5 /\ a_hooks (actors s 2%nat) = 0.
 Proof. eexists. eexists. split; [vm_compute; reflexivity|]. vm_compute. auto. Qed.
 
 (* ---------- a concrete run that meets the hypotheses of the theorems ---------- *)
